@@ -203,6 +203,10 @@ func (c *Ctx) runCase(idx int64, desc string, fn func(k *K)) {
 		defer func() {
 			if r := recover(); r != nil {
 				st := string(debug.Stack())
+				if lf, ok := r.(libFailure); ok {
+					k.Violation("setup:"+lf.key, "a library call needed by the monitor failed: "+lf.what, nil)
+					return
+				}
 				if pe, ok := r.(harnessBug); ok {
 					fmt.Fprintf(os.Stderr, "HARNESS-BUG case=%d %s: %s\n", idx, desc, string(pe))
 					os.Exit(2)
@@ -244,6 +248,14 @@ type harnessBug string
 
 // Bug aborts the check as a broken harness (exit 2) - never a violation.
 func Bug(format string, a ...any) { panic(harnessBug(fmt.Sprintf(format, a...))) }
+
+type libFailure struct{ key, what string }
+
+// LibFail ends the current case with a violation: a library call that a monitor needs for
+// its set-up (and that must succeed on correct code, e.g. selecting the application on the
+// conforming simulated chip, importing a genuine export) failed. Using Bug here would turn
+// a misbehaving library into a "broken harness" verdict.
+func LibFail(key, format string, a ...any) { panic(libFailure{key, fmt.Sprintf(format, a...)}) }
 
 func stackHasLibFrame(st string) bool {
 	return strings.Contains(st, "github.com/gmrtd/gmrtd/")
